@@ -167,6 +167,13 @@ func lift(fn *Function) bool {
 	usesDefer := false
 	deferstackAlloc, deferstackCall := deferstackPreamble(fn)
 	eliminateDeferStack := deferstackAlloc != nil && !deferstackAlloc.Heap
+	if deferstackAlloc != nil && deferstackAlloc.Heap {
+		// The defer stack escapes into the yield function of a
+		// range-over-func loop, which pushes the deferred calls of the
+		// loop body onto it: the rundefers instructions are needed even
+		// if fn itself contains no Defer instruction.
+		usesDefer = true
+	}
 
 	// Determine which allocs we can lift and number them densely.
 	// The renaming phase uses this numbering for compact maps.
